@@ -346,6 +346,26 @@ def rp(spec, st, sc):
         return out
     if k == "alignedstruct":
         return rp(["struct", [[n, ["aligned", spec[1], s, b"\x00"]] for n, s in spec[2]]], st, sc)
+    if k == "union":
+        s2 = nested_scope(sc)
+        out = {}
+        start = st.pos
+        ends = {}
+        for i, (name, sub) in enumerate(spec[2]):
+            st.pos = start
+            v = _member(rp, name, sub, st, s2)
+            if name:
+                out[name] = v
+                s2[name] = v
+                ends[name] = st.pos
+            ends[i] = st.pos
+        st.pos = start
+        pf = evaluate(spec[1], s2)
+        if pf is not None:
+            if pf not in ends:
+                raise ForeignError("Union parsefrom names no member")
+            st.pos = ends[pf]
+        return out
     if k == "seq":
         s2 = nested_scope(sc)
         out = []
@@ -834,6 +854,22 @@ def rb(spec, v, sc):
             if name:
                 s2[name] = ret
         return bytes(out), s2
+    if k == "union":
+        s2 = nested_scope(sc)
+        for kk, vv in (v or {}).items():
+            s2[kk] = vv
+        for name, sub in spec[2]:
+            if buildnone(sub):
+                sv = v.get(name)
+            elif name in v:
+                sv = v[name]
+            else:
+                continue
+            if name:
+                s2[name] = sv
+            data, ret = _member_b(name, sub, sv, s2)
+            return data, {name: ret}
+        raise Reject("union-nothing-to-build")
     if k == "bitstruct":
         return _bitwise_build(["struct", spec[1]], v, sc)
     if k == "alignedstruct":
